@@ -6,6 +6,7 @@
 Require Import AV.Lib.Base AV.H1.ConnRec AV.H1.ConnState AV.H1.ConnSpec AV.H1.ConnProofs.
 Require Import AV.H1.ConnGraceful AV.H1.ConnTimers AV.H1.ConnSeal AV.H1.ConnLocal AV.H1.ConnKeepAlive.
 Require Import AV.Gen.ConnStateTables AV.H1.ConnTie.
+Require Import AV.H1.TimerSM AV.H1.ConnConfig AV.H1.ConnClock AV.Gen.TimerCfgTables AV.H1.ConnCfgTie.
 
 (* TIE TO THE SOURCE TEXT (see Props/C03.v): for the tree as it is the model's timer and shutdown
    transitions ARE the interpretation of the generated statement lists of poll_head_timer,
@@ -215,3 +216,193 @@ Example C06_example_graceful :
                      (init c [[HUntil 500; HRespond ONone 3 0]; [HRespond ONone 0 0]]) in
   trace s = [TDecode r0; TStart r0; TDecode r1; THead (Some r0) 200 true false CClose; TComplete] /\ res s = 1.
 Proof. vm_compute. repeat split; reflexivity. Qed.
+
+(* ================================================================================================
+   Session 4: the cached clock with explicit slack (a), KeepAlive normalisation and the deadline
+   functions (b), the TimerState machine (c), and finding F31 (set_and_init with a stale deadline).
+   ================================================================================================ *)
+
+(* TIE: timer.rs, keep_alive.rs, config.rs (deadlines, ServiceConfig::new, builder) and date.rs are
+   transcribed by H1/TimerSM.v and H1/ConnConfig.v exactly as the tables read from the source say *)
+Theorem C06_timer_cfg_match_source :
+  (forall e, t_new e = i_new TC_NEW e) /\
+  (forall t, t_enabled t = i_is_enabled TC_IS_ENABLED t) /\
+  (forall d t, ts_set d t = tc_timer TC_SET d) /\
+  (forall t, ts_clear t = tc_timer TC_CLEAR 0) /\
+  (forall t, ts_init t = i_init TC_INIT_POLLS t) /\
+  (forall d t, ts_set_and_init d t = i_ops TC_SET_AND_INIT d t) /\
+  (forall k, ka_is_enabled k = negb (kapat_matches KA_NOT_ENABLED k)) /\
+  (forall k, ka_normalize k = i_normalize KA_NORMALIZE k) /\
+  (forall d, ka_from_duration d = i_from_duration d) /\
+  (forall o, ka_from_option o = i_from_option o) /\
+  (forall k cache, keep_alive_deadline k cache = i_ka_deadline CFG_KA_DEADLINE k cache) /\
+  (forall c cache, client_request_deadline c cache = i_deadline CFG_REQ_DEADLINE c cache) /\
+  (forall c cache, client_disconnect_deadline c cache = i_deadline CFG_DISC_DEADLINE c cache) /\
+  (forall k rq dc hc sg f, ka (config_new k rq dc hc sg f) = i_store CFG_NEW_KA k) /\
+  (forall k rq dc hc sg f, ka (config_builder k rq dc hc sg f) = i_store CFG_BUILDER_KA k) /\
+  CFG_NOW_IS_CACHE = true /\ DATE_NOW_READS_CACHE = true /\ DATE_INITIAL_IS_NOW = true /\ TICK = DATE_REFRESH_MS.
+Proof. exact timer_cfg_match_source. Qed.
+
+(* ---- (a) cached clock, adversarial phase, explicit slack ---------------------------------------- *)
+(* SLACK is the DateService period read from date.rs. A cache refreshed at phase, phase + TICK, ...
+   (any phase) is never ahead and less than SLACK behind; in the time frame shifted by TICK - phase
+   it is the model's [cached], and all theorems quantify over every clock value. *)
+Theorem C06_cache_any_phase : forall phase t, phase < TICK -> phase <= t ->
+  cache_read phase t <= t /\ t < cache_read phase t + SLACK /\
+  cache_read phase t + (TICK - phase) = cached (t + (TICK - phase)).
+Proof.
+  intros phase t P L. destruct (cache_read_bounds phase t L) as [A B].
+  repeat split; [exact A|exact B|apply cache_read_is_cached; assumption].
+Qed.
+Example C06_cache_phase_example : SLACK = 500 /\ cache_read 130 1129 = 630 /\ cache_read 130 1130 = 1130 /\ cached 1499 = 1000.
+Proof. vm_compute. repeat split; reflexivity. Qed.
+
+(* every deadline armed at clock value [now s] lies in (now + timeout - SLACK, now + timeout] *)
+Theorem C06_deadline_window : forall to s, exists d, arm to s = TActive d /\ d <= now s + to /\ now s + to < d + SLACK.
+Proof. exact arm_window. Qed.
+
+(* 408: by the first poll at/after (first poll + timeout); by no poll up to (first poll + timeout - SLACK) *)
+Theorem C06_408_with_slack : forall c s0 s,
+  started s0 = false -> read_disc s0 = false -> sock s0 = [] -> rbuf s0 = [] -> sock_end s0 = RPending -> req_to c <> 0 ->
+  head_t s = head_t (read_phase c s0) ->
+  (now s0 + req_to c <= now s -> shutdown s = false -> read_disc s = false ->
+     shutdown (poll_head_timer c s) = true /\
+     trace (poll_head_timer c s) = trace s ++ [THead None 408 (c_v11 s) (c_head s) (resp_conn c ONone s); TComplete]) /\
+  (now s + SLACK <= now s0 + req_to c -> poll_head_timer c s = s).
+Proof. exact head_408_with_slack. Qed.
+
+(* keep-alive armed by the idle poll at t1: closed by the first poll at/after t1 + d; quiet, and an
+   arriving request served, up to t1 + d - SLACK *)
+Theorem C06_keepalive_with_slack : forall c d t1 s,
+  ka_tm s = TActive (cached t1 + d) ->
+  (t1 + d <= now s -> shutdown (poll_ka_timer c s) = true) /\
+  (now s + SLACK <= t1 + d -> poll_ka_timer c s = s) /\
+  (forall r x more, Idle s -> r_arrive r = IReq x :: more -> sig_armed s && r_signal r = false ->
+     now s + r_adv r + SLACK <= t1 + d ->
+     exists l, trace (poll c r s) = trace s ++ TDecode x :: TStart x :: l).
+Proof. exact keepalive_with_slack. Qed.
+Example C06_keepalive_with_slack_example :
+  let c := mkCfg (KaTimeout 2000) 0 1000 true false (mkFixes true false true) in
+  let r0 := mkReq 0 false true ONone RBNone in
+  let s := run_polls c [mkRound 700 [IReq r0] RPending false false false] (init c [[HRespond ONone 2 0]]) in
+  Idle s /\ ka_tm s = TActive (cached 700 + 2000) /\ cached 700 + 2000 = 2500.
+Proof. vm_compute. repeat split; reflexivity. Qed.
+
+(* shutdown entered at clock value [now s] with a disconnect timeout: resolved by the first poll
+   at/after now + timeout whatever the peer does; the DisconnectTimeout deadline < SLACK early *)
+Theorem C06_shutdown_with_slack : forall c wb sp s,
+  fx_sd (fx c) = true -> disc_to c <> 0 -> SD s -> t_active (sd_t s) = false -> write_disc s = false ->
+  let s' := shutdown_io c wb sp s in
+  res s' = 0 ->
+  (forall rs, (exists pre r post, rs = pre ++ r :: post /\ now s + disc_to c <= now (run_polls c pre s') + r_adv r) ->
+     res (run_polls c rs s') <> 0) /\
+  (exists dl, sd_t s' = TActive dl /\ dl <= now s + disc_to c /\ now s + disc_to c < dl + SLACK).
+Proof. exact shutdown_with_slack. Qed.
+
+(* ---- (b) KeepAlive normalisation, deadlines, and what "not configured" means --------------------- *)
+Theorem C06_keepalive_normalisation :
+  ka_from_duration 0 = KaDisabled /\ (forall d, d <> 0 -> ka_from_duration d = KaTimeout d) /\
+  (forall o, ka_from_option o = match o with Some d => if d =? 0 then KaDisabled else KaTimeout d | None => KaDisabled end) /\
+  (forall k, ka_normalize (ka_normalize k) = ka_normalize k) /\
+  (forall k, ka_normalize k <> KaTimeout 0) /\
+  (forall k, ka_is_enabled (ka_normalize k) = true <-> (k = KaOs \/ exists d, k = KaTimeout d /\ d <> 0)).
+Proof.
+  repeat split; try reflexivity.
+  - exact ka_from_duration_pos. - exact ka_from_option_spec. - exact ka_normalize_idem.
+  - exact ka_normalize_never_zero. - apply ka_enabled_normalized. - apply ka_enabled_normalized.
+Qed.
+
+Theorem C06_deadline_none_iff_zero : forall c cache,
+  (client_request_deadline c cache = None <-> req_to c = 0) /\
+  (client_disconnect_deadline c cache = None <-> disc_to c = 0) /\
+  (keep_alive_deadline (ka c) cache = None <-> forall d, ka c <> KaTimeout d).
+Proof.
+  intros c cache. repeat split; try apply deadline_none_iff_zero.
+  - destruct (ka c); cbn; intros H d0; congruence.
+  - destruct (ka c) eqn:E; cbn; intro H; try reflexivity. exfalso. apply (H d). reflexivity.
+Qed.
+
+(* the dispatcher model arms its timers through exactly these functions *)
+Theorem C06_model_uses_deadlines : forall c s,
+  (if req_to c =? 0 then s else set_head_t (arm (req_to c) s) s) = set_opt set_head_t (client_request_deadline c (cached (now s))) s /\
+  match ka c with KaTimeout d => set_ka_tm (arm d s) s | _ => s end = set_opt set_ka_tm (keep_alive_deadline (ka c) (cached (now s))) s /\
+  (t_active (sd_t s) = false ->
+   ensure_linger_timer c s =
+   match client_disconnect_deadline c (cached (now s)) with Some d => (set_sd_t (TActive d) s, true) | None => (s, false) end).
+Proof. intros c s. split; [apply model_head_arm|]. split; [apply model_ka_arm|apply model_linger_arm]. Qed.
+
+(* NO BOUND where no duration is configured (the premise of each C06 clause): on every reachable
+   state, for every tree variant, a zero request timeout means no head timer (never a 408 from it), a
+   zero disconnect timeout no shutdown timer (never DisconnectTimeout), KeepAlive::Os / Disabled no
+   keep-alive timer: each timer function is the identity *)
+Theorem C06_no_timer_without_timeout : forall c hs es,
+  let s := run_events c es (init c hs) in
+  (req_to c = 0 -> t_active (head_t s) = false /\ poll_head_timer c s = s) /\
+  (disc_to c = 0 -> t_active (sd_t s) = false /\ poll_sd_timer s = s) /\
+  ((forall d, ka c <> KaTimeout d) -> t_active (ka_tm s) = false /\ poll_ka_timer c s = s).
+Proof.
+  intros c hs es s. destruct (run_events_NT c es _ (init_NT c hs)) as (A & B & C & _). fold s in A, B, C.
+  split; [|split].
+  - intro Z. split; [exact (A Z)|]. unfold poll_head_timer. rewrite (inactive_not_ready _ _ (A Z)). reflexivity.
+  - intro Z. split; [exact (B Z)|]. unfold poll_sd_timer. rewrite (inactive_not_ready _ _ (B Z)). reflexivity.
+  - intro Z. assert (Q : ka_duration (ka c) = None) by (destruct (ka c) as [d0| |]; try reflexivity; exfalso; apply (Z d0); reflexivity).
+    split; [exact (C Q)|]. unfold poll_ka_timer. rewrite (inactive_not_ready _ _ (C Q)). reflexivity.
+Qed.
+
+(* keep-alive disabled (KeepAlive::Disabled, Timeout(ZERO) through ServiceConfig::new / From): on
+   every reachable state the codec context is Close, so every response head is encoded with close
+   whatever the request and the handler ask for, KEEP_ALIVE is never set, and the epilogue turns a
+   finished exchange into SHUTDOWN: the connection closes after the response *)
+Theorem C06_disabled_keepalive_closes_after_response : forall c hs es,
+  ka_is_enabled (ka c) = false ->
+  let s := run_events c es (init c hs) in
+  c_conn s = CClose /\ keep_alive s = false /\
+  (forall who st ro bl bp, resp_conn c ro s = CClose /\ c_conn (send_response c who st ro bl bp s) = CClose) /\
+  (write_disc s = false -> dstate s = SNone -> wbuf s = [] -> err s = None -> finished s = true -> payload s = None ->
+   shutdown (fst (epilogue c s)) = true /\ snd (epilogue c s) = true).
+Proof.
+  intros c hs es D s. destruct (run_events_NT c es _ (init_NT c hs)) as (_ & _ & _ & X). fold s in X. specialize (X D).
+  assert (KA : keep_alive s = false).
+  { destruct (keep_alive s) eqn:E; [|reflexivity].
+    destruct (run_events_K c es _ (init_K c hs)) as [Y _]. fold s in Y. destruct (Y E) as (_ & _ & _ & _ & Z). congruence. }
+  split; [exact X|]. split; [exact KA|]. split.
+  - intros. apply disabled_ka_response_closes; exact X.
+  - intros W Dn Wb Er Fi Pl. unfold epilogue. rewrite W, Dn. cbn [is_none].
+    destruct (read_disc s && (negb (half_closed c) || true)); cbn; rewrite ?Wb, ?Er, ?Fi, ?Pl, ?KA; cbn; split; reflexivity.
+Qed.
+Example C06_disabled_keepalive_example :
+  let c := config_new (KaTimeout 0) 0 0 true false (mkFixes true false true) in
+  let r0 := mkReq 0 false true OKeepAlive RBNone in
+  let s := run_polls c [mkRound 0 [IReq r0] RPending false false false] (init c [[HRespond OKeepAlive 2 0]]) in
+  ka c = KaDisabled /\ trace s = [TDecode r0; TStart r0; THead (Some r0) 200 true false CClose; TComplete] /\ res s = 1.
+Proof. vm_compute. repeat split; reflexivity. Qed.
+
+(* ---- (c) TimerState ------------------------------------------------------------------------------ *)
+(* after ANY history of set / set_and_init / clear / init / polls / passage of time, a poll reports
+   an expiry iff a deadline is in force (last set not followed by a clear) and the clock has
+   reached it: never before the deadline, and at the first poll at or after it *)
+Theorem C06_timer_expiry_iff : forall ops t n,
+  ts_expired ops (t, n) = true <-> exists d, in_force ops (dl_of t) = Some d /\ d <= n + elapsed ops.
+Proof. exact ts_expired_iff. Qed.
+Theorem C06_timer_armed_then_polled : forall pre mid t n d,
+  forallb passive mid = true ->
+  (ts_expired (pre ++ [OSetInit d] ++ mid) (t, n) = true <-> d <= n + elapsed pre + elapsed mid) /\
+  (ts_expired (pre ++ [OSet d] ++ mid) (t, n) = true <-> d <= n + elapsed pre + elapsed mid).
+Proof. exact ts_armed_then_polled. Qed.
+Theorem C06_timer_quiet_when_cleared_or_disabled :
+  (forall pre mid t n, forallb passive mid = true -> ts_expired (pre ++ [OClear] ++ mid) (t, n) = false) /\
+  (forall ops n, forallb no_set ops = true -> ts_expired ops (t_new false, n) = false).
+Proof. split; [exact ts_cleared_is_quiet|exact ts_disabled_never_fires]. Qed.
+
+(* ---- F31: set_and_init with a deadline that has already passed ------------------------------------ *)
+(* FALSE of the code as it is (wake-driven executor): duration below the cache's lag, no wake-up *)
+Theorem C06_refuted_stale_deadline_no_wake :
+  exists timeout n, timeout <> 0 /\ next_timer_poll false (cached n + timeout) n = None.
+Proof. exact set_and_init_refuted_stale_deadline. Qed.
+(* outside the class F31-stale-deadline-no-wake (every configured duration >= the refresh period),
+   or with fixes/F31.patch in the tree ([init_wakes] is read from timer.rs), a poll is scheduled no
+   later than the deadline (or at once) for every clock value *)
+Theorem C06_timer_wake_holds_outside_known : forall timeout n,
+  init_wakes = true \/ TICK <= timeout ->
+  exists t, next_timer_poll init_wakes (cached n + timeout) n = Some t /\ t <= N.max (cached n + timeout) n.
+Proof. exact timer_wake_scheduled. Qed.
